@@ -226,6 +226,29 @@ EblifScope(q) ==
        max |-> [N |-> 1, L |-> 2, D |-> 4, P |-> 12, C |-> 11, I |-> 5, Q |-> 14, W |-> 14],
        names |-> {"u", "v", "w"}, vals |-> {}, pos |-> {NoPos}, createN |-> {0},
        parents |-> {3}, maxKids |-> 4, queries |-> q, walk |-> FALSE]
+(* C16: compose twice in each format with every option combination *)
+ComposeOpts == [write_blackbox : BOOLEAN, write_eblif_cname : BOOLEAN, defparam : BOOLEAN, definition_list : BOOLEAN]
+ComposeCands(s, which) ==
+    (IF "c16_edif" \in which THEN {[op |-> "compose2", n |-> 1, fmt |-> "edif", opts |-> [none |-> TRUE]]} ELSE {})
+    \cup (IF "c16_vlog" \in which
+          THEN {[op |-> "seq", calls |-> <<[op |-> "vlog_read", n |-> 1, opts |-> [order |-> "asis", ansi |-> FALSE,
+                                            positional |-> FALSE, concat |-> FALSE, escaped |-> FALSE, comments |-> FALSE,
+                                            celldefine |-> cd]],
+                                           [op |-> "compose2", n |-> 2, fmt |-> "verilog", opts |-> o]>>] :
+                   <<o, cd>> \in {oo \in ComposeOpts : oo.write_eblif_cname} \X BOOLEAN}
+               \* a netlist read from Verilog written in the other two formats
+               \cup {[op |-> "seq", calls |-> <<[op |-> "vlog_read", n |-> 1, opts |-> [order |-> "asis", ansi |-> FALSE,
+                                            positional |-> FALSE, concat |-> FALSE, escaped |-> FALSE, comments |-> FALSE,
+                                            celldefine |-> FALSE]],
+                                           [op |-> "compose2", n |-> 2, fmt |-> f, opts |-> [none |-> TRUE]]>>] :
+                        f \in {"eblif", "edif"}}
+          ELSE {})
+    \cup (IF "c16_eblif" \in which
+          THEN {[op |-> "seq", calls |-> <<[op |-> "eblif_read", n |-> 1, opts |-> [comments |-> TRUE, continuation |-> FALSE,
+                                            order |-> "asis", declare |-> "all", unconn |-> "omit", conn |-> "none"]],
+                                           [op |-> "compose2", n |-> 2, fmt |-> "eblif", opts |-> o]>>] :
+                   o \in {oo \in ComposeOpts : ~oo.defparam /\ ~oo.definition_list}}
+          ELSE {})
 EdifOpts == [rename : BOOLEAN, case : {"same", "upper"}, bitorder : {"asc", "desc", "mixed"},
              comments : BOOLEAN, skip_empty : BOOLEAN]
 FmtCands(s, which) ==
@@ -307,7 +330,11 @@ QScope == [init |-> QInit, ops |-> {}, max |-> MaxAll(0), names |-> {}, vals |->
            createN |-> {0}, queries |-> {"C13"}, walk |-> FALSE, sample |-> 3000]
 
 ScopeTable ==
-  [ eblif_read |-> EblifScope({"eblif_read"}),
+  [ c16_edif |-> FmtScope({"c16_edif"}),
+    c16_edif3 |-> [FmtScope({"c16_edif"}) EXCEPT !.init = FmtInit3, !.parents = {1, 4}],
+    c16_vlog |-> VlogScope({"c16_vlog"}),
+    c16_eblif |-> EblifScope({"c16_eblif"}),
+    eblif_read |-> EblifScope({"eblif_read"}),
     eblif_rt |-> EblifScope({"eblif_rt"}),
     eblif_latch |-> [EblifScope({"eblif_read"}) EXCEPT !.init = EblifLatchInit, !.ops = {"b:connect"}],
     eblif_latch_rt |-> [EblifScope({"eblif_rt"}) EXCEPT !.init = EblifLatchInit, !.ops = {"b:connect"}],
@@ -407,6 +434,7 @@ QCands(s) ==
     \cup (IF "C17" \in Queries THEN NameCands(s) ELSE {})
     \cup VlogCands(s, Queries)
     \cup EblifCands(s, Queries)
+    \cup ComposeCands(s, Queries)
     \cup (IF "C13" \in Queries THEN RandomSubset(Scope.sample * (MaxDepth + 1), QueryProduct(s)) \cup DirectProduct(s) ELSE {})
     \cup (IF "xf2" \in Queries
           THEN StepCands(s) \cup {[op |-> "uniquify", n |-> n] : n \in IdsN(s)}
